@@ -20,7 +20,7 @@ NAMES = ["gcc", "libfoo1", "a", "0ad", "g++", "lib-x.y+z", "python3.11",
          "i386", "amd64", "any", "linux-any", "nocheck", "stage1", "cross"]
 QUALS = [None, "any", "native", "amd64", "a-b"]
 OPS = ["<<", "<=", "=", ">=", ">>"]
-VERS = ["1", "1.0-1", "2:1.0~rc1+b1", "0.1-2-3", "1a.b", "2.7.STABLE9-4", "1.0~RC1", "1.0+B.a-Z9"]
+VERS = ["1", "1.0-1", "2:1.0~rc1+b1", "0.1-2-3", "1a.b", "2.7.STABLE9-4", "1.0~RC1", "1.0+B.a-Z9", "0:1.2-3", "0:0", "00:1", "10:0"]
 ARCHS = ["amd64", "i386", "linux-any", "any-arm", "hurd_x", "arm64", "armel", "armhf", "mips64el", "ppc64el", "riscv64", "s390x",
          "kfreebsd-any", "x32"]
 PROFILES = ["stage1", "nocheck", "cross", "pkg.foo.bar", "a_b-c"]
